@@ -66,14 +66,23 @@ func VerifC13ObjAddr() {
 	k := 1 + vChoice("nseg", vBound("c13.maxseg", 3))
 	e := vChoice("exec", k)
 	phs := vC13Layout(k, e)
-	dyn := vChoice("dyn", 2) == 1
+	dynKind := vChoice("dyn", 3) // 0: ET_EXEC, 1: ET_DYN loaded at or above its link address, 2: ET_DYN loaded below it
+	dyn := dynKind != 0
 	bias := uint64(0)
 	typ := elf.ET_EXEC
-	if dyn {
+	if dynKind == 1 {
 		typ = elf.ET_DYN
 		bpg := vUint64("biaspg")
 		vAssume(bpg < uint64(1)<<35)
 		bias = bpg << 12
+	} else if dynKind == 2 {
+		// a negative load bias (two's complement): the image sits below its link-time address,
+		// as prelinked libraries or objects linked with a non-zero text-segment address do
+		typ = elf.ET_DYN
+		nb := vUint64("negbiaspg")
+		vAssume(nb > 0)
+		vAssume(nb<<12 <= vPageDown(phs[0].Vaddr)) // the lowest page stays at a non-negative address
+		bias = -(nb << 12)
 	} else {
 		vAssume(phs[e].Vaddr >= vPage)
 	}
